@@ -8,7 +8,8 @@ Open Scope Z_scope.
 Record obs := mkObs {
   o_ret  : list Z;          (* numbers returned by a maintenance call *)
   o_thr  : list (Z * Z);    (* per goroutine: (0,v) returned v | (1,_) returned the loader's error |
-                               (2,_) panicked | (10,_) parked inside its loader | (11,_) blocked in wg.Wait *)
+                               (2,_) panicked | (10,_) parked inside its loader | (11,_) blocked in wg.Wait |
+                               (12,_) parked between save's unlock and its gen.size.Add *)
   o_acct : Z;               (* Cleaner.getSize() *)
   o_live : Z;               (* sum of entry sizes over the payloads of all caches *)
   o_bk   : list nat         (* Cleaner.buckets as cache ids *)
@@ -30,6 +31,7 @@ Definition thr_code (th : thread) : Z * Z :=
   | PDone RPanic => (2, 0)
   | PLoad _ => (10, 0)
   | PWait _ => (11, 0)
+  | PAdd _ _ _ => (12, 0)
   | _ => (99, 0)
   end.
 
@@ -124,6 +126,7 @@ Definition thr_ok (cl : list call) (seen : list nat) (t : nat) (x : Z * Z) : boo
       else if code =? 2 then memb t seen && match o with OPanic => true | _ => false end
       else if code =? 10 then true
       else if code =? 11 then true
+      else if code =? 12 then memb t seen && match o with OVal _ _ => true | _ => false end
       else false
   end.
 
@@ -144,20 +147,22 @@ Fixpoint spec_run (strict : bool) (lim : Z) (cl : list call) (evs : list ev) (im
   match evs, impl with
   | [], [] => true
   | e :: er, o :: ir =>
-      let ncache' := match e with ENew => S ncache | _ => ncache end in
+      let ncache' := match e with ENew | ERelBucketsNew => S ncache | _ => ncache end in
       let ncall' := match e with ECall _ _ _ => S ncall | _ => ncall end in
       let rel' := match e with ERelease c => c :: rel | _ => rel end in
       let seen' := seen ++ in_loader_from (o_thr o) 0%nat in
       (* coherence *)
       Nat.eqb (length (o_thr o)) ncall' && thrs_ok cl seen' 0%nat (o_thr o) &&
-      (* accounting: the size the cleaner accounts = sum of live entries *)
-      (negb strict || (o_acct o =? o_live o)) &&
+      (* accounting: the size the cleaner accounts = sum of live entries (unless a saver is parked between
+         its unlock and its Add: then the two differ by the pending Adds) *)
+      (negb strict || existsb (fun x => fst x =? 12) (o_thr o) || (o_acct o =? o_live o)) &&
       (* every cache that was not released is under the cleaner's management *)
       forallb (fun c => memb c rel' || memb c (o_bk o)) (seq 0 ncache') && nodupb (o_bk o) &&
       forallb (fun c => Nat.ltb c ncache') (o_bk o) &&
       (* a cleaning pass brings the accounted (= live) size under the limit *)
       match e, o_ret o with
-      | ECleanup, 1 :: _ => (o_acct o <=? lim) && (negb strict || (o_live o <=? lim))
+      | ECleanup, 1 :: _ => (o_acct o <=? lim) &&
+                            (negb strict || existsb (fun x => fst x =? 12) (o_thr o) || (o_live o <=? lim))
       | _, _ => true
       end &&
       spec_run strict lim cl er ir ncache' ncall' rel' seen'
